@@ -406,94 +406,104 @@ Section Builder.
       List.map (fun f => NField struct_node f) (struct_fields E (deref_ptr (expr_type struct_node))).
 
     (** The mutually recursive core, on fuel:
-        [struct_to_struct] iterates the accessible fields of the destination struct;
+        [struct_to_struct] iterates the accessible fields of the destination struct ([fields_loop]);
         [match_field] applies the precedence chain skip > conv > map > $map > literal > name match;
         [name_pass] runs the handler over a candidate list (first same-named accessible member decides). *)
     Inductive pass_result :=
     | PNotFound                       (* no candidate matched by name *)
     | PDone (a : option assignment) (nested : bool).
 
+    (** the loop of structToStruct, over the function [mf] deciding one field *)
+    Fixpoint fields_loop (mf : node -> res (option assignment)) (lhs_struct : node) (fs : list node) : res (list assignment) :=
+      match fs with
+      | [] => ret []
+      | lf :: fs' =>
+          if negb (is_field_accessible lhs_struct (obj_name lf)) then fields_loop mf lhs_struct fs' else
+          doR a <- mf lf;
+          doR rest <- fields_loop mf lhs_struct fs';
+          ret (match a with Some x => x :: rest | None => rest end)
+      end.
+
+    (** the handler of structFieldAndStructGettersAndFields over a candidate list;
+        [s2s] is the member-wise descent into a by-value struct pair *)
+    Fixpoint name_pass (s2s : node -> node -> res (list assignment)) (lhs rhs_struct : node) (cands : list node) : res pass_result :=
+      match cands with
+      | [] => ret PNotFound
+      | r :: cands' =>
+          if negb (is_field_accessible rhs_struct (obj_name r)) || negb (compare_field_name (obj_name lhs) (obj_name r))
+          then name_pass s2s lhs rhs_struct cands' else
+          doR sl <- (if is_slice (expr_type lhs) && is_slice (expr_type r) then slice_to_slice lhs r else ret None);
+          match sl with
+          | Some a => ret (PDone (Some a) false)
+          | None =>
+              doR c <- cast_node (expr_type lhs) r;
+              match c with
+              | Some cn => ret (PDone (Some (ASimple lhs (RNode cn) (returns_error cn))) false)
+              | None =>
+                  if is_struct_type E (expr_type lhs) && is_struct_type E (expr_type r) then
+                    doR contents <- s2s lhs r;
+                    ret (PDone (match contents with [] => None | _ => Some (ANest contents) end) true)
+                  else ret (PDone None false)
+              end
+          end
+      end.
+
+    (** structFieldAndStructGettersAndFields, given the descent function *)
+    Definition name_match_with (s2s : node -> node -> res (list assignment)) (lhs rhs_struct : node) : res (option assignment) :=
+      doR g <- (if o_getter o then name_pass s2s lhs rhs_struct (getter_nodes rhs_struct) else ret PNotFound);
+      let '(ga, gnested) := match g with PDone a n => (a, n) | PNotFound => (None, false) end in
+      match ga with
+      | Some a => ret (Some a)
+      | None =>
+          doR f <- (if str_eqb (o_rule o) rule_name then name_pass s2s lhs rhs_struct (field_nodes rhs_struct) else ret PNotFound);
+          let '(fa, fnested) := match f with PDone a n => (a, n) | PNotFound => (None, false) end in
+          let ran_fields := str_eqb (o_rule o) rule_name in
+          match fa with
+          | Some a => ret (Some a)
+          | None =>
+              if ran_fields && (gnested || fnested) then ret None
+              else doR a <- no_match_warn method_pos lhs; ret (Some a)
+          end
+      end.
+
+    (** matchStructFieldAndStruct, given the name matcher *)
+    Definition match_field_with (nm : node -> node -> res (option assignment)) (lhs rhs : node) (args : list node) : res (option assignment) :=
+      let me := matcher_expr lhs in
+      match should_skip (o_skip o) me (o_exact o) with
+      | MPanic => panic "PatternMatcher.Match: nil *regexp.Regexp"
+      | MUnsup => unsup "skip pattern outside the Re.v subset"
+      | MBool true => ret (Some (ASkip lhs))
+      | MBool false =>
+          match find (fun c => ident_match (fc_dst c) me true) (o_conv o) with
+          | Some c => doR a <- create_with_converter lhs rhs c; ret (Some a)
+          | None =>
+          match find (fun m => ident_match (nm_dst m) me true) (o_map o) with
+          | Some m => doR a <- create_with_mapper lhs rhs m; ret (Some a)
+          | None =>
+          match find (fun m => ident_match (nm_dst m) me true) (o_tmap o) with
+          | Some m => doR a <- create_with_templated lhs rhs args m; ret (Some a)
+          | None =>
+          match find (fun l => ident_match (ls_dst l) me true) (o_lit o) with
+          | Some l => ret (Some (ASimple lhs (RLiteral (ls_literal l)) false))
+          | None => nm lhs rhs
+          end end end end
+      end.
+
     Fixpoint struct_to_struct (fuel : nat) (lhs_struct rhs_struct : node) (args : list node) : res (list assignment) :=
       match fuel with
       | O => (Fuel, [])
       | S fuel' =>
-          let fix loop (fs : list node) : res (list assignment) :=
-            match fs with
-            | [] => ret []
-            | lf :: fs' =>
-                if negb (is_field_accessible lhs_struct (obj_name lf)) then loop fs' else
-                doR a <- match_field fuel' lf rhs_struct args;
-                doR rest <- loop fs';
-                ret (match a with Some x => x :: rest | None => rest end)
-            end in
-          loop (field_nodes lhs_struct)
-      end
-    with match_field (fuel : nat) (lhs rhs : node) (args : list node) : res (option assignment) :=
-      match fuel with
-      | O => (Fuel, [])
-      | S fuel' =>
-          let me := matcher_expr lhs in
-          match should_skip (o_skip o) me (o_exact o) with
-          | MPanic => panic "PatternMatcher.Match: nil *regexp.Regexp"
-          | MUnsup => unsup "skip pattern outside the Re.v subset"
-          | MBool true => ret (Some (ASkip lhs))
-          | MBool false =>
-              match find (fun c => ident_match (fc_dst c) me true) (o_conv o) with
-              | Some c => doR a <- create_with_converter lhs rhs c; ret (Some a)
-              | None =>
-              match find (fun m => ident_match (nm_dst m) me true) (o_map o) with
-              | Some m => doR a <- create_with_mapper lhs rhs m; ret (Some a)
-              | None =>
-              match find (fun m => ident_match (nm_dst m) me true) (o_tmap o) with
-              | Some m => doR a <- create_with_templated lhs rhs args m; ret (Some a)
-              | None =>
-              match find (fun l => ident_match (ls_dst l) me true) (o_lit o) with
-              | Some l => ret (Some (ASimple lhs (RLiteral (ls_literal l)) false))
-              | None => name_match fuel' lhs rhs
-              end end end end
-          end
-      end
-    with name_match (fuel : nat) (lhs rhs_struct : node) : res (option assignment) :=
-      match fuel with
-      | O => (Fuel, [])
-      | S fuel' =>
-          let fix pass (cands : list node) : res pass_result :=
-            match cands with
-            | [] => ret PNotFound
-            | r :: cands' =>
-                if negb (is_field_accessible rhs_struct (obj_name r)) || negb (compare_field_name (obj_name lhs) (obj_name r))
-                then pass cands' else
-                doR sl <- (if is_slice (expr_type lhs) && is_slice (expr_type r) then slice_to_slice lhs r else ret None);
-                match sl with
-                | Some a => ret (PDone (Some a) false)
-                | None =>
-                    doR c <- cast_node (expr_type lhs) r;
-                    match c with
-                    | Some cn => ret (PDone (Some (ASimple lhs (RNode cn) (returns_error cn))) false)
-                    | None =>
-                        if is_struct_type E (expr_type lhs) && is_struct_type E (expr_type r) then
-                          doR contents <- struct_to_struct fuel' lhs r [];
-                          ret (PDone (match contents with [] => None | _ => Some (ANest contents) end) true)
-                        else ret (PDone None false)
-                    end
-                end
-            end in
-          doR g <- (if o_getter o then pass (getter_nodes rhs_struct) else ret PNotFound);
-          let '(ga, gnested) := match g with PDone a n => (a, n) | PNotFound => (None, false) end in
-          match ga with
-          | Some a => ret (Some a)
-          | None =>
-              doR f <- (if str_eqb (o_rule o) rule_name then pass (field_nodes rhs_struct) else ret PNotFound);
-              let '(fa, fnested) := match f with PDone a n => (a, n) | PNotFound => (None, false) end in
-              let ran_fields := str_eqb (o_rule o) rule_name in
-              match fa with
-              | Some a => ret (Some a)
-              | None =>
-                  if ran_fields && (gnested || fnested) then ret None
-                  else doR a <- no_match_warn method_pos lhs; ret (Some a)
-              end
-          end
+          fields_loop
+            (fun lf => match_field_with
+                         (fun l r => name_match_with (fun l' r' => struct_to_struct fuel' l' r' []) l r)
+                         lf rhs_struct args)
+            lhs_struct (field_nodes lhs_struct)
       end.
+
+    Definition name_match (fuel : nat) (lhs rhs_struct : node) : res (option assignment) :=
+      name_match_with (fun l r => struct_to_struct fuel l r []) lhs rhs_struct.
+    Definition match_field (fuel : nat) (lhs rhs : node) (args : list node) : res (option assignment) :=
+      match_field_with (name_match fuel) lhs rhs args.
   End WithOpts.
 
   (** buildManipulator *)
